@@ -238,10 +238,26 @@ class QuicSession:
             print(e)
             logging.warning(f"Could not decrypt Quic Packet: {quic_packet.dcid}")
 
+    def match_short_header_cid(self, packet: Packet):
+        """A short header carries its Destination Connection ID without a length. The id was issued by the receiver
+        of the packet, so only that side's (non-empty) connection ids are tried, longest first; sessions whose
+        receiver uses zero-length connection ids are matched by their addresses instead."""
+        if packet.ip_src == self.client_ip and packet.sport == self.client_port:
+            candidates = self.server_cids
+        elif packet.ip_src == self.server_ip and packet.sport == self.server_port:
+            candidates = self.client_cids
+        else:
+            candidates = set(self.client_cids) | set(self.server_cids)
+
+        for cid in sorted(candidates, key=len, reverse=True):
+            if len(cid) > 0 and cid == packet.tls_data[1:1 + len(cid)]:
+                return cid
+        return None
+
     def packet_isserver(self, packet, dcid):
-        if dcid in self.server_cids:
+        if len(dcid) > 0 and dcid in self.server_cids:
             return False
-        elif dcid in self.client_cids:
+        elif len(dcid) > 0 and dcid in self.client_cids:
             return True
         elif packet.ip_src == self.client_ip and packet.sport == self.client_port:
             return False
